@@ -46,8 +46,8 @@ META = dict(
     need=["value_constancy_checks", "gradient_checks", "metric_vs_fisher", "pullback_checks",
           "metric_at_checks", "library_score_expectations", "vcge_transformation_expectations",
           "composition_checks"],
-    quick=dict(cases=420, workers=6, budget_s=75),
-    thorough=dict(cases=12000, workers=16, budget_s=700),
+    quick=dict(cases=360, workers=6, budget_s=80),
+    thorough=dict(cases=16000, workers=16, budget_s=700),
     design_ref="DESIGN.md §5 C11",
     level_text=("generated likelihood configurations and parameter points; every value / gradient / metric / "
                 "transformation of the real operators compared with independent closed forms; exploration"),
@@ -471,6 +471,7 @@ class VCGauss(Fam):
 
 
 FAMILIES = [Gauss, Gauss, Gauss, Poisson, Bernoulli, StudentT, InvGamma, Categorical, VCGauss, VCGauss]
+FAMSET = [VCGauss, Gauss, Poisson, Bernoulli, StudentT, InvGamma, Categorical, VCGauss, Gauss, VCGauss]
 
 
 # ==================================================================== init ===
@@ -698,7 +699,12 @@ def case(ck, i):
     rng = ck.rng()
     comp = str(rng.choice(["natural", "natural", "scaled", "model", "model", "model_scaled", "sum", "sum",
                            "hamiltonian", "averaged"]))
-    fam = FAMILIES[int(rng.integers(0, len(FAMILIES)))](ck, rng)
+    famcls = FAMILIES[int(rng.integers(0, len(FAMILIES)))]
+    if i < len(FAMSET):
+        # the first cases walk through every family in natural parameters (so that every deciding
+        # monitor observes something even if the budget cuts the run short)
+        famcls, comp = FAMSET[i], "natural"
+    fam = famcls(ck, rng)
     if comp != "natural" and comp != "scaled" and isinstance(fam, Categorical):
         comp = "scaled" if rng.integers(0, 2) else "natural"
     desc = dict(comp=comp, fams=[fam.desc])
@@ -929,7 +935,7 @@ def case(ck, i):
         elif isinstance(fam, VCGauss):
             # documented local approximation: E_r [J_f^T J_f] = Fisher, Gauss-Hermite exact (degree 2)
             _, i0 = fam.split(x)
-            z, w = np.polynomial.hermite_e.hermegauss(6)
+            z, w = np.polynomial.hermite_e.hermegauss(4)       # exact up to degree 7 (needed: 2)
             w = w / np.sum(w)
             dtp, f = fam.op.get_transformation()
             lout = trafo_layout(ift, f.target, dtp, fam.cplx)
